@@ -26,7 +26,7 @@ ASSUMPTIONS = [
     "maxnan missing values",
     "sums compared to 1e-11 x sum|v| (exact on the lattice), max / tail exactly",
 ]
-OBLIGATIONS = {"reuse-array": 100, "op0": 50, "op1": 50, "op2": 50, "op3": 50, "neg-values+max": 20,
+OBLIGATIONS = {"reuse-array": 100, "maxnan:on-a-group-count": 100, "op0": 50, "op1": 50, "op2": 50, "op3": 50, "neg-values+max": 20,
                "nan-last-in-group+tail": 20, "whole-group-nan": 20, "single-group": 10,
                "n=1": 5, "extreme-index": 10, "reject:decreasing": 30,
                "flathomogen": 50, "goue": 20, "goue:transform": 5, "m2d:flat": 10, "m2d:cubic": 10,
@@ -408,15 +408,23 @@ def run(ctx):
         v = gen_values(rng, n, int(rng.integers(0, 5)))
         v, tags = add_nans(rng, v, idx, int(rng.integers(0, 6)))
         glen = max(e - s for s, e in groups(idx))
+        # the number of missing values of each group: maxnan exactly on, one below and
+        # one above such a count is the boundary of the rule
+        nn = sorted({int(np.isnan(v[s:e]).sum()) for s, e in groups(idx)} - {0})
+        edge = [k + d for k in nn[:3] for d in (-1, 0, 1) if k + d >= 0] or [0]
         for op in range(4):
             maxnan = [0, 1, 2, glen, 10 ** 6][int(rng.integers(0, 5))]
+            if it % 2:
+                maxnan = edge[int(rng.integers(0, len(edge)))]
+                ctx.tag("maxnan:on-a-group-count")
             case = {"kind": "agg", "index": idx, "values": v, "op": op,
                     "maxnan": maxnan}
             run_agg_case(ctx, case)
             if it0 % 80 == 0 and n <= 10 and op == 2:
                 ctx.sample(case)
         run_flat_case(ctx, {"kind": "flat", "index": idx, "values": v,
-                            "maxnan": [0, 1, glen, 10 ** 6][int(rng.integers(0, 4))]})
+                            "maxnan": [0, 1, glen, 10 ** 6][int(rng.integers(0, 4))]
+                            if it % 2 == 0 else edge[int(rng.integers(0, len(edge)))]})
         if n >= 2:
             bad = idx.copy()
             j = [1, n - 1, int(rng.integers(1, n))][it % 3]
